@@ -67,16 +67,20 @@ deriving DecidableEq, Repr
 
 /-- rest after the longest run of `//..` comments and `\r?\n` line ends; the flag says "inside a comment" -/
 def skip0 : Bool → List Char → List Char
-  | _, [] => []
+  | true, [] => []
   | true, c :: r => if c = '\n' then skip0 false r else skip0 true r
+  | false, [] => []
   | false, c :: r =>
     if c = '\n' then skip0 false r
-    else match r with
-      | d :: r' =>
-        if c = '/' ∧ d = '/' then skip0 true r'
-        else if c = '\r' ∧ d = '\n' then skip0 false r'
-        else c :: r
-      | [] => [c]
+    else if c = '/' then
+      match r with
+      | d :: r' => if d = '/' then skip0 true r' else c :: r
+      | [] => c :: r
+    else if c = '\r' then
+      match r with
+      | d :: r' => if d = '\n' then skip0 false r' else c :: r
+      | [] => c :: r
+    else c :: r
 
 def ign0M : Matcher := fun cs =>
   let r := skip0 false cs
@@ -86,6 +90,7 @@ def isBlank (c : Char) : Bool := c = '\t' || c = '\x0c' || c = ' '
 def isNob (c : Char) : Bool := c ≠ '(' && c ≠ ')'
 def isIdCh (c : Char) : Bool := c ≠ '"' && c ≠ '(' && c ≠ ')' && c ≠ ' '
 def isIoeCh (c : Char) : Bool := c ≠ '(' && c ≠ ')' && c ≠ ' '
+def isNameCh (c : Char) : Bool := c ≠ '"'
 def isNumCh (c : Char) : Bool := c = '-' || c = '.' || ('0' ≤ c && c ≤ '9')
 
 /-- `[-.0-9]*` followed by the terminator -/
@@ -96,13 +101,17 @@ def numM (term : Char) : Matcher := fun cs =>
 
 def orElse (a b : Matcher) : Matcher := fun cs => match a cs with | some x => some x | none => b cs
 
+def idM : Matcher := orElse (delimited '"' '"') (plus isIdCh)
+def ioeM : Matcher := orElse (delimited '(' ')') (plus isIoeCh)
+def blankM : Matcher := plus isBlank
+
 def Tm.run : Tm → Matcher
   | .ign0 => ign0M
-  | .ign1 => plus isBlank
+  | .ign1 => blankM
   | .nob => plus isNob
-  | .id => orElse (delimited '"' '"') (plus isIdCh)
-  | .idOrEdge => orElse (delimited '(' ')') (plus isIoeCh)
-  | .name => plus (· ≠ '"')
+  | .id => idM
+  | .idOrEdge => ioeM
+  | .name => plus isNameCh
   | .dq => chr '"'
   | .lpar => chr '('
   | .rpar => chr ')'
@@ -292,9 +301,15 @@ def pCellItems (N : Nat) : Nat → List Char → Option (List CItem × List Char
       | none => none
     | _ => none
 
+def CItem.instName : CItem → Option (List Char)
+  | .inst (some n) => some n
+  | _ => none
+def CItem.delayEs : CItem → Option (List TEntry)
+  | .delay es => some es
+  | _ => none
+
 def cellOf (its : List CItem) : TCell :=
-  { insts := its.filterMap fun | .inst (some n) => some n | _ => none
-    delays := its.filterMap fun | .delay es => some es | _ => none }
+  { insts := its.filterMap CItem.instName, delays := its.filterMap CItem.delayEs }
 
 inductive HItem
   | design (n : List Char)
@@ -343,9 +358,15 @@ def pHdr (N : Nat) : Nat → List Char → Option (List HItem × List Char)
       | none => none
     | _ => none
 
+def HItem.designName : HItem → Option (List Char)
+  | .design n => some n
+  | _ => none
+def HItem.cellOf : HItem → Option TCell
+  | .cell c => some c
+  | _ => none
+
 def fileOf (its : List HItem) : SdfFile :=
-  { designs := its.filterMap fun | .design n => some n | _ => none
-    cells := its.filterMap fun | .cell c => some c | _ => none }
+  { designs := its.filterMap HItem.designName, cells := its.filterMap HItem.cellOf }
 
 /-- the lark parse (no transformer) -/
 def parseTree (cs : List Char) : Option SdfFile :=
@@ -426,6 +447,44 @@ def TCell.toRaw (c : TCell) : Option KV.Sdf.RawCell :=
 
 /-- the block list `KV.Sdf.parse` consumes; `none` when some number has more than three fraction digits -/
 def SdfFile.toRaw (f : SdfFile) : Option (List KV.Sdf.RawCell) := optAll (f.cells.map TCell.toRaw)
+
+/-! ## which trees the canonical printer can show (hypothesis of the round-trip theorem) -/
+/-- a plain (unquoted) name token: non-empty, all characters in the terminal's class, and not starting with a
+tab / form feed (the blank terminal in front of it would swallow those) -/
+def validPlain (p : Char → Bool) (n : List Char) : Bool :=
+  match n with
+  | [] => false
+  | c :: _ => !isBlank c && n.all p
+
+/-- `open [^close]+ close` -/
+def validDelim (o c : Char) (n : List Char) : Bool :=
+  match n with
+  | [] => false
+  | x :: r => x == o && r.getLast? == some c && !r.dropLast.isEmpty && r.dropLast.all (· ≠ c)
+
+/-- an `ID` token -/
+def validId (n : List Char) : Bool := validPlain isIdCh n || validDelim '"' '"' n
+/-- an `ID_OR_EDGE` token -/
+def validIoe (n : List Char) : Bool := validPlain isIoeCh n || validDelim '(' ')' n
+/-- a `NAME` token (scanned after the ignored terminals) -/
+def validDesign (n : List Char) : Bool :=
+  match n with
+  | [] => false
+  | c :: _ => !isBlank c && c ≠ '\n' && c ≠ '\r' && c ≠ '/' && n.all isNameCh
+/-- a number field: empty, or digits / `-` / `.` that `float()` accepts -/
+def validField (s : List Char) : Bool := s.all isNumCh && fieldOK s
+
+def TTriple.valid : TTriple → Bool
+  | none => true
+  | some (a, b, c) => validField a && validField b && validField c
+
+def TEntry.valid (e : TEntry) : Bool :=
+  (if e.io then validIoe e.a && validIoe e.b else validId e.a && validId e.b)
+  && e.vals.all TTriple.valid && (e.vals.length == 1 || e.vals.length == 2)
+
+def TCell.valid (c : TCell) : Bool := c.insts.all validId && c.delays.all fun es => es.all TEntry.valid
+
+def SdfFile.valid (f : SdfFile) : Bool := f.designs.all validDesign && f.cells.all TCell.valid
 
 /-! ## canonical printer -/
 def pTripleTxt : TTriple → List Char
